@@ -78,6 +78,7 @@ func main() {
 	out := flag.String("out", "/tmp/mut", "")
 	funcsFile := flag.String("funcs", "", "")
 	maxPer := flag.Int("max", 10, "max mutants per function")
+	ops := flag.String("ops", "basic", "basic | order (statement swaps and argument swaps)")
 	phase := flag.Int("phase", 0, "0: sites 0, step, 2·step…; 1: sites step/2, step/2+step… (a second, disjoint sample)")
 	flag.Parse()
 	var targets []target
@@ -128,7 +129,46 @@ func main() {
 					pos   token.Pos
 				}
 				var sites []site
+				simple := func(st ast.Stmt) bool {
+					switch s := st.(type) {
+					case *ast.ExprStmt:
+						return !isSkippedCall(s.X)
+					case *ast.AssignStmt:
+						return s.Tok != token.DEFINE
+					case *ast.IncDecStmt, *ast.DeferStmt, *ast.GoStmt:
+						return true
+					}
+					return false
+				}
+				if *ops == "order" {
+					ast.Inspect(fd.Body, func(n ast.Node) bool {
+						switch x := n.(type) {
+						case *ast.BlockStmt:
+							for i := 0; i+1 < len(x.List); i++ {
+								i, x := i, x
+								if simple(x.List[i]) && simple(x.List[i+1]) {
+									sites = append(sites, site{"swap-stmts", func() func() {
+										x.List[i], x.List[i+1] = x.List[i+1], x.List[i]
+										return func() { x.List[i], x.List[i+1] = x.List[i+1], x.List[i] }
+									}, x.List[i].Pos()})
+								}
+							}
+						case *ast.CallExpr:
+							_ = x
+							if len(x.Args) >= 2 && !isSkippedCall(x) {
+								sites = append(sites, site{"swap-args", func() func() {
+									x.Args[0], x.Args[1] = x.Args[1], x.Args[0]
+									return func() { x.Args[0], x.Args[1] = x.Args[1], x.Args[0] }
+								}, x.Pos()})
+							}
+						}
+						return true
+					})
+				}
 				ast.Inspect(fd.Body, func(n ast.Node) bool {
+					if *ops == "order" {
+						return false
+					}
 					switch x := n.(type) {
 					case *ast.IfStmt:
 						_ = x
